@@ -4,6 +4,7 @@ the Ready loop: the quorum for a burst of writes is {leader L, follower F}; F di
 L is lost for good; {F, P} must still hold every acknowledged write."""
 import json, os, random, re, threading, time
 import cluster
+import server
 
 def conv(r):
     t, val = r
@@ -318,5 +319,71 @@ def snapshot_install_crash(gate="walsave", seed=1):
             problems.append({"kind": "cannot-restart", "gate": gate,
                              "detail": "the follower died at %s while installing the leader's snapshot and cannot start any more: %s" % (gate, cl.tail(F, 600).strip().splitlines()[-3:])})
         return problems, stats
+    finally:
+        cl.shutdown()
+
+
+def stalled_proposals(args, d):
+    """Both followers are frozen, then three connections hand one write each to the leader (which can append but not commit);
+    the followers come back after `stall` seconds. Each write must take effect exactly once and be answered with its own
+    result however long it waited: the history (with a read-back through every node) must be linearizable."""
+    name, stall, idx = args
+    cl = cluster.Cluster(3, trace=False).start_all()
+    rec = Recorder(idx)
+    stats = {"answered": 0, "unanswered": 0, "faults": []}
+    result = {"name": name, "stats": stats, "path": None, "violations": [], "inconclusive": None}
+    try:
+        if cl.wait_serving(timeout=60) is None:
+            result["inconclusive"] = "cluster did not start serving"
+            return result
+        L, t0 = None, time.time()
+        while L is None and time.time() - t0 < 30:
+            L = leader_of(cl)
+            if L is None:
+                time.sleep(0.3)
+        if L is None:
+            result["inconclusive"] = "no leader line in the logs"
+            return result
+        followers = [nd for nd in cl.nodes if nd is not L]
+        warm = L.client(timeout=8.0)
+        for argv in (["SET", "sctr", "10"], ["RPUSH", "slst", "a"], ["HSET", "sh", "n", "5"]):
+            op = rec.new_op(argv); rec.done(op, conv(warm.cmd(*argv, timeout=8.0)))
+        warm.close()
+        if leader_of(cl) is not L:
+            result["inconclusive"] = "leader changed during preparation"
+            return result
+        for f in followers:
+            cl.stop_cont(f, True)
+        conns, ops = [], []
+        for argv in (["INCR", "sctr"], ["RPUSH", "slst", "b"], ["HINCRBY", "sh", "n", "1"]):
+            c = L.client(timeout=8.0)
+            op = rec.new_op(argv)
+            c.send_raw(server.encode(argv))
+            conns.append(c); ops.append(op)
+        stats["faults"].append("SIGSTOP both followers for %.1f s with three writes handed to the leader" % stall)
+        time.sleep(stall)
+        for f in followers:
+            cl.stop_cont(f, False)
+        for c, op in zip(conns, ops):
+            try:
+                rec.done(op, conv(c.read_reply(timeout=30.0)))
+                stats["answered"] += 1
+            except Exception:
+                stats["unanswered"] += 1
+            c.close()
+        time.sleep(1.0)
+        for nd in cl.nodes:
+            try:
+                c = nd.client(timeout=8.0)
+                for argv in (["GET", "sctr"], ["LRANGE", "slst", "0", "-1"], ["HGET", "sh", "n"]):
+                    op = rec.new_op(argv)
+                    rec.done(op, conv(c.cmd(*argv, timeout=8.0)))
+                c.close()
+            except Exception:
+                result["inconclusive"] = "read-back through node %d got no reply" % nd.id
+        path = os.path.join(d, "hist-%d.ndjson" % idx)
+        rec.write(path)
+        result["path"] = path
+        return result
     finally:
         cl.shutdown()
